@@ -100,6 +100,68 @@ MaxLine(s) == MaxLineFrom(s, 1, 1, 0)
 IsPrefixOf(p, q) == Len(p) <= Len(q) /\ \A i \in 1..Len(p) : p[i] = q[i]
 
 ------------------------------------------------------------------------------
+(* A reader with a buffer of `cap` symbols (bufio.Reader(cap).ReadLine, the AMQP input; cap = 0:   *)
+(* no bound).  "Lines up to the supported limit are processed whole": a line whose CONTENT (the    *)
+(* terminator LF / CRLF not counted) is at most cap symbols is dispatched whole and exactly once.  *)
+(* Two points are left open because the statement is silent on them:                               *)
+(*  - such a reader cannot wait for the terminator of a line that fills its buffer (cap symbols    *)
+(*    and no LF among them): it hands the line out when the buffer is full and meets the bare      *)
+(*    terminator afterwards.  It may dispatch that terminator as one additional EMPTY line right   *)
+(*    after the line (the real code does); where the LF never came (a final line / the partial     *)
+(*    line at a read error, ending in CR) what is left of the terminator is that CR by itself;     *)
+(*  - a content that itself ends in CR (".. CR CR LF") counts one symbol more: the reader cannot   *)
+(*    tell that CR from the first half of a CRLF without the symbol that follows it.               *)
+(* Lines beyond the limit are not supported: nothing is claimed for a stream that has one.         *)
+Fill(k, cap) == cap > 0 /\ k >= cap       \* k symbols and no LF among them fill the buffer
+EmptyAfter(r) == <<r[2] + 1, r[2]>>       \* the empty line between a content and its terminator
+
+NeedOf(s, r) == (r[2] - r[1] + 1) + (IF r[2] >= r[1] /\ s[r[2]] = "CR" THEN 1 ELSE 0)
+MaxNeed(s) == LET L == Lines(s)
+                  N == {NeedOf(s, L[i]) : i \in 1..Len(L)} \cup {0}
+              IN  CHOOSE m \in N : \A k \in N : k <= m
+
+\* the dispatch lists for the LF-terminated lines of s from a on: Terminated, where every line that
+\* filled the buffer may be followed by the empty line
+RECURSIVE TerminatedC(_, _, _, _)
+TerminatedC(s, a, i, cap) ==
+    IF i > Len(s) THEN {<<>>}
+    ELSE IF s[i] = "LF"
+         THEN LET ln == DropCR(s, a, i - 1)
+                  H  == IF Fill(i - a, cap) THEN {<<ln>>, <<ln, EmptyAfter(ln)>>} ELSE {<<ln>>}
+              IN  {h \o r : h \in H, r \in TerminatedC(s, i + 1, i + 1, cap)}
+         ELSE TerminatedC(s, a, i + 1, cap)
+
+\* Acceptable for a reader of capacity cap (cap = 0: exactly Acceptable)
+AcceptableC(s, term, cap) ==
+    LET a  == LastStart(s)
+        m  == Len(s)
+        F  == IF a > m THEN {<<>>}
+              ELSE {<<DropCR(s, a, m)>>, <<<<a, m>>>>} \cup
+                   (IF s[m] = "CR" /\ Fill(m - a + 1, cap) THEN {<<<<a, m - 1>>, <<m, m>>>>} ELSE {})
+        F2 == IF term \in {"datatimeout", "timeout"} THEN F \cup {<<>>} ELSE F
+    IN  {t \o f : t \in TerminatedC(s, 1, 1, cap), f \in F2}
+
+AcceptableAtC(s, e, term, cap) ==
+    AcceptableC(Prefix(s, e), term, cap) \cup
+    (IF term \in TimeoutTerms /\ e < Len(s) THEN AcceptableC(s, "eof", cap) ELSE {})
+
+\* While the connection is open and the first m symbols of s were received: complete lines only --
+\* except that the line still open may already have been dispatched once it has filled the buffer
+\* (whole: its content as it stands in s, all of it received)
+NextLF(s, a) == IF \E i \in a..Len(s) : s[i] = "LF"
+                THEN CHOOSE i \in a..Len(s) : s[i] = "LF" /\ \A j \in a..(i - 1) : s[j] # "LF"
+                ELSE 0
+OpenFill(s, m, cap) ==
+    LET a == LastStart(Prefix(s, m))
+        t == NextLF(s, a)
+        C == IF t > 0 THEN {DropCR(s, a, t - 1)} ELSE {DropCR(s, a, Len(s)), <<a, Len(s)>>}
+    IN  IF Fill(m - a + 1, cap) THEN {f \in C : f[2] <= m} ELSE {}
+DuringOK(out, s, m, cap) ==
+    \E L \in TerminatedC(Prefix(s, m), 1, 1, cap) :
+        \/ IsPrefixOf(out, L)
+        \/ \E f \in OpenFill(s, m, cap) : out = Append(L, f)
+
+------------------------------------------------------------------------------
 (* Pickle connection framing (C13), abstracted: symbols are 0/1; a frame is a 2-symbol big-endian  *)
 (* length (standing for the 4 bytes) followed by that many payload symbols; payload symbol 1 in    *)
 (* first position stands for a valid protocol prefix, 0 for an invalid one.  FParse gives what the *)
